@@ -114,7 +114,22 @@ def cells(tier):
     out.append(("nexrad-data", ["aws", "decode", "nexrad-model", "verif-hooks"]))
     return out
 
-def run_cell(crate, feats, target):
+def release_cells():
+    """Configurations also checked in the release profile (`cargo check --release --lib`): code under
+    cfg(debug_assertions) / cfg(not(debug_assertions)) and the arguments of debug_assert! are only
+    type-checked one way in each profile, so a combination can build in dev and not in release."""
+    out = []
+    for s in powerset(MODEL):
+        out.append(("nexrad-model", s))
+    for s in powerset(DECODE):
+        out.append(("nexrad-decode", s))
+    for s in powerset(FACADE):
+        out.append(("nexrad", s))
+    for s in powerset(DATA_NAMED):
+        out.append(("nexrad-data", s))
+    return out
+
+def run_cell(crate, feats, target, release=False):
     """Two observations per configuration:
     1. `--lib` alone — what a downstream consumer with exactly these features compiles.  (Checking
        `--lib --examples` together would let cargo unify the features requested by the examples'
@@ -126,6 +141,10 @@ def run_cell(crate, feats, target):
         base += ["--features", ",".join(feats)]
     t0 = time.time()
     env = dict(os.environ, CARGO_NET_OFFLINE="true")
+    if release:
+        cmd = base + ["--release", "--lib"]
+        p = subprocess.run(cmd, capture_output=True, text=True, env=env)
+        return p.returncode, p.stderr, " ".join(cmd), time.time() - t0
     for extra in (["--lib"], ["--examples"]):
         cmd = base + extra
         p = subprocess.run(cmd, capture_output=True, text=True, env=env)
@@ -181,6 +200,22 @@ def main():
     threads = [threading.Thread(target=worker, args=(t,)) for t in targets]
     for t in threads: t.start()
     for t in threads: t.join()
+    # second pass: the release profile (two workers: the dependencies' release metadata is built once each)
+    rel = release_cells()
+    rq = queue.Queue()
+    for i, c in enumerate(rel):
+        rq.put((i, c))
+    rel_results = [None] * len(rel)
+    def rel_worker(target):
+        while True:
+            try:
+                i, (crate, feats) = rq.get_nowait()
+            except queue.Empty:
+                return
+            rel_results[i] = (crate, feats) + run_cell(crate, feats, target, release=True)
+    threads = [threading.Thread(target=rel_worker, args=(t,)) for t in targets[:2]]
+    for t in threads: t.start()
+    for t in threads: t.join()
     probe_results = []
     for feats in PROBE_CONFIGS:
         probe_results.append((feats,) + run_probe(feats, targets[0]))
@@ -201,6 +236,10 @@ def main():
     for crate, feats, err, cmd in failures:
         sig = f"{crate} features=[{','.join(feats)}] does not build"
         (known_hits if sig in known else fresh).append((sig, err, cmd))
+    for (crate, feats, rc, err, cmd, _) in rel_results:
+        if rc != 0:
+            sig = f"{crate} features=[{','.join(feats)}] does not build in the release profile"
+            (known_hits if sig in known else fresh).append((sig, err, cmd))
     for feats, out, cmd in probe_fail:
         sig = f"probe features=[{','.join(feats)}] fails"
         (known_hits if sig in known else fresh).append((sig, out, cmd))
@@ -211,7 +250,8 @@ def main():
     evidence = {
         "property_id": "C20", "tier": tier, "seed": SEED, "level": "exploration",
         "coverage": {
-            "evaluations": len(results) + len(probe_results),
+            "evaluations": len(results) + len(probe_results) + len(rel_results),
+            "release_profile_configurations": {"checked": len(rel_results), "built": sum(1 for r in rel_results if r[2] == 0)},
             "distinct_nontrivial": distinct,
             "rule": "a case is one (crate, feature set) configuration checked with cargo check --no-default-features --features <set>, first `--lib` alone (the consumer's view; no dev-dependency feature unification), then `--examples`, against /repo's working tree, or one probe binary built and run against a named-feature configuration; trivial = empty feature set; distinct = distinct non-empty (crate, feature set) pairs; oracle = cargo's exit status / probe prints PROBE-OK",
             "samples": [{"crate": c, "features": f, "exit": rc, "seconds": round(dt, 2), "cmd": cmd} for (c, f, rc, _e, cmd, dt) in results[:3] + results[-2:]],
@@ -245,7 +285,7 @@ def main():
         sys.exit(1)
     if len(results) < 20:
         print("INCONCLUSIVE: property=C20 observed too little"); sys.exit(2)
-    print(f"HELD: property=C20 on {len(results)} configurations + {len(probe_results)} probe runs")
+    print(f"HELD: property=C20 on {len(results)} configurations (dev profile) + {len(rel_results)} in the release profile + {len(probe_results)} probe runs")
     sys.exit(0)
 
 if __name__ == "__main__":
